@@ -77,6 +77,34 @@ def make_pair(n, spec, kgl, basis, nullpat, seed):
     return Kb, KGb, idx, lam
 
 
+def make_chain(n, variant, nullpat):
+    """Spring-chain pairs: every interior column of K sums to exactly zero although the column carries stiffness.
+    T = tridiag(-1, 2, -1) has eigenvalues t_k = 2 - 2 cos(k pi / (n + 1))."""
+    T = 2.0 * np.eye(n) - np.eye(n, k=1) - np.eye(n, k=-1)
+    t = 2.0 - 2.0 * np.cos(np.arange(1, n + 1) * np.pi / (n + 1))
+    sc = 2.0 ** np.ceil(np.log2(1.5 / t[0]))          # power of two: cancellation in the column sums stays exact
+    if variant == 'T_I':
+        K, KG, lam = sc * T, -np.eye(n), sc * t
+    elif variant == 'T2_T':
+        K, KG, lam = sc * T.dot(T), -T, sc * t
+    else:                                              # geometric matrix with cancelling columns too, of mixed sign
+        dg = np.where(np.arange(n) % 3 == 1, -1.0, 1.0) / (1.0 + 0.37 * np.arange(n))
+        K = sc * T.dot(T)
+        KG = -(T.dot(np.diag(dg)).dot(T))
+        KG = 0.5 * (KG + KG.T)
+        lam = sc / dg                                  # with y = T x: (sc I - lambda D) y = 0
+    if nullpat == 'none':
+        idx = np.arange(n); N = n
+    elif nullpat == 'third':
+        idx = np.array([i + i // 2 for i in range(n)]); N = idx[-1] + 2
+    else:
+        idx = 3 * np.arange(n); N = 3 * n
+    Kb = np.zeros((N, N)); KGb = np.zeros((N, N))
+    Kb[np.ix_(idx, idx)] = K
+    KGb[np.ix_(idx, idx)] = KG
+    return Kb, KGb, idx, lam
+
+
 def cases(tier, seed):
     out = []
     sizes = [5, 6, 7, 12, 30, 60] + ([120, 400] if tier == 'thorough' else [])
@@ -94,14 +122,47 @@ def cases(tier, seed):
             if nullpat in ('first', 'last') and spec != 'separated':
                 continue
         out.append(dict(kind='pair', n=n, spec=spec, kg=kgl, basis=basis, null=nullpat, num=num, sparse=sparse, seed=seed))
-    for model, fb, (m, n), num, sparse in itertools.product(['plate', 'cpanel'], ['SSSS', 'CCCC', 'CFFF'], [(8, 7), (7, 9)], [1, 3, 5], [1, 0]):
-        out.append(dict(kind='panel', model=model, fbase=fb, m=m, n=n, num=num, sparse=sparse, seed=seed))
+    for n, variant, nullpat, num, sparse in itertools.product(sizes, ['T_I', 'T2_T', 'T2_TsT'], ['none', 'third', 'two_thirds'], [1, 2, 5, 25], [1, 0]):
+        if num > n - 2 or (variant == 'T2_TsT' and num > n // 2):
+            continue
+        out.append(dict(kind='pair', chain=variant, n=n, null=nullpat, num=num, sparse=sparse, seed=seed, kg='mixed' if variant == 'T2_TsT' else 'negdef'))
+    for model, fb, (m, n), num, sparse, load in itertools.product(['plate', 'cpanel'], ['SSSS', 'CCCC', 'CFFF'], [(8, 7), (7, 9)], [1, 3, 5], [1, 0],
+                                                                  ['biaxial', 'shear', 'comp_tens']):
+        if tier == 'quick' and load != 'biaxial' and (fb == 'CCCC' or (m, n) == (7, 9)):
+            continue
+        out.append(dict(kind='panel', model=model, fbase=fb, m=m, n=n, num=num, sparse=sparse, load=load, seed=seed))
     for model, alpha, num, comb in itertools.product(['clpt_donnell_bc1', 'clpt_donnell_bc3', 'fsdt_donnell_bc1'], [0., 25.], [1, 4], [0, 1, 2]):
         out.append(dict(kind='shell', model=model, alpha=alpha, num=num, comb=comb, seed=seed))
     return out
 
 
-def judge(K, KG, vals, vecs, idx_active, fails, ctx, exact=None, ordered=False, num=None):
+class NoAnswer(Exception):
+    pass
+
+
+def call_lb(f, *a, **kw):
+    """ARPACK draws its start vector from a generator whose state is private to the Fortran library (not reachable through lb);
+    a break-down of the Arnoldi iteration is therefore retried; a solver that still gives no answer returns nothing the property
+    speaks about: counted, and bounded by the vacuity guard in summarize()."""
+    from scipy.sparse.linalg import ArpackError
+    for attempt in range(3):
+        try:
+            return f(*a, **kw)
+        except ArpackError:
+            continue
+    raise NoAnswer()
+
+
+def summarize(results, tier, seed):
+    na = sum(r.get('no_answer', 0) for r in results if isinstance(r, dict))
+    out = dict(solver_gave_no_answer=na, cases=len(results))
+    if na > 0.02 * len(results):
+        out['fails'] = [fail('vacuity guard: the iterative solver gave no answer in more than 2% of the cases; the check cannot decide',
+                             sig=None, no_answer=na, cases=len(results))]
+    return out
+
+
+def judge(K, KG, vals, vecs, idx_active, fails, ctx, exact=None, ordered=False, num=None, rtol=1e-6):
     vals = np.asarray(vals)
     if np.iscomplexobj(vals):
         if np.abs(vals.imag).max() > 1e-9 * np.abs(vals).max():
@@ -133,33 +194,45 @@ def judge(K, KG, vals, vecs, idx_active, fails, ctx, exact=None, ordered=False, 
         kk = min(len(vals), len(pos), num if num is not None else len(vals))
         if np.any(np.diff(vals[:kk]) < -1e-8 * np.abs(vals[:kk]).max()):
             fails.append(fail('load multipliers not in ascending order', sig=None, vals=vals[:kk], **ctx))
-        elif np.abs(vals[:kk] - pos[:kk]).max() > 1e-6 * np.abs(pos[:kk]).max():
+        elif np.abs(vals[:kk] - pos[:kk]).max() > rtol * np.abs(pos[:kk]).max():
             fails.append(fail('returned multipliers are not the smallest positive ones', sig=None, got=vals[:kk], expected=pos[:kk], **ctx))
 
 
 def check_pair(case):
     from compmech.analysis import lb
-    Kd, KGd, idx, lam = make_pair(case['n'], case['spec'], case['kg'], case['basis'], case['null'], case['seed'])
+    if case.get('chain'):
+        Kd, KGd, idx, lam = make_chain(case['n'], case['chain'], case['null'])
+    else:
+        Kd, KGd, idx, lam = make_pair(case['n'], case['spec'], case['kg'], case['basis'], case['null'], case['seed'])
     K, KG = csr_matrix(Kd), csr_matrix(KGd)
     Kc, KGc = K.copy(), KG.copy()
     fails = []
     ctx = dict(case=case, dense=not case['sparse'])
     try:
-        vals, vecs = lb(K, KG, silent=True, sparse_solver=bool(case['sparse']), num_eigvalues=case['num'])
+        vals, vecs = call_lb(lb, K, KG, silent=True, sparse_solver=bool(case['sparse']), num_eigvalues=case['num'])
+    except NoAnswer:
+        return dict(fails=[], nontrivial=0, no_answer=1, execs=3, transitions=3)
     except Exception as e:
         return dict(fails=[fail('lb raised', sig=None, case=case, error=repr(e)[:300])], nontrivial=1)
     if (abs(K - Kc)).max() != 0 or (abs(KG - KGc)).max() != 0:
         fails.append(fail('lb modified the matrices passed by the caller', sig=None, case=case))
-    ordered = case['kg'] in ('negdef', 'rankdef')
-    judge(Kd, KGd, vals, vecs, idx, fails, ctx, exact=lam, ordered=ordered, num=case['num'])
+    # sub-critical and destabilising: every positive multiplier exceeds 1; with a geometric matrix of mixed sign the order is
+    # demanded as long as no more values are requested than there are positive multipliers
+    ordered = case['kg'] in ('negdef', 'rankdef') or case['num'] <= int((lam > 0).sum())
+    rtol = 1e-6
+    if case.get('chain'):
+        # spring chains are ill conditioned: cond(T) = t_n / t_1 ~ (2 (n + 1) / pi)^2, squared for the T^2 variants
+        cond = (4.0 / (np.pi / (case['n'] + 1)) ** 2) ** (1 if case['chain'] == 'T_I' else 2)
+        rtol = max(1e-6, 50 * np.finfo(float).eps * cond)
+    judge(Kd, KGd, vals, vecs, idx, fails, ctx, exact=lam, ordered=ordered, num=case['num'], rtol=rtol)
     execs = 1
     # scale edge: KG -> s KG  =>  lambda -> lambda / s
-    if not fails and ordered:
+    if not fails and ordered and case['kg'] != 'mixed':
         s = 0.4          # scaling down keeps the reference load sub-critical
         vals2, vecs2 = lb(K, csr_matrix(s * KGd), silent=True, sparse_solver=bool(case['sparse']), num_eigvalues=case['num'])
         execs += 1
         kk = min(len(vals), len(vals2), case['num'])
-        if np.abs(np.real(vals2[:kk]) * s - np.real(vals[:kk])).max() > 1e-6 * np.abs(vals[:kk]).max():
+        if np.abs(np.real(vals2[:kk]) * s - np.real(vals[:kk])).max() > rtol * np.abs(vals[:kk]).max():
             fails.append(fail('scaling the reference load by s does not divide the multipliers by s', sig=None, case=case))
     return dict(fails=fails[:4], execs=execs, transitions=execs, nontrivial=int(len(set(np.round(lam[lam > 0], 6))) > 1))
 
@@ -170,7 +243,7 @@ def check_panel(case):
     cfg = dict(model=case['model'], a=0.6, b=0.4, r=1.5, lam='cross_sym', m=case['m'], n=case['n'], fbase=case['fbase'], seed=case['seed'])
     fails = []
     p = pan.make_panel(cfg)
-    p.Nxx, p.Nyy = -1.0, -0.3
+    p.Nxx, p.Nyy, p.Nxy = dict(biaxial=(-1.0, -0.3, 0.), shear=(0., 0., -1.0), comp_tens=(-1.0, 0.6, 0.2))[case.get('load', 'biaxial')]
     p.num_eigvalues = case['num']
     K, KG = p.calc_k0(silent=True), p.calc_kG0(silent=True)
     Kd, KGd = pan.dense(K), pan.dense(KG)
@@ -183,8 +256,8 @@ def check_panel(case):
         judge(Kd, KGd, vals, vecs, act, fails, dict(ctx, api='analysis.lb'), exact=exact, ordered=True, num=case['num'])
         p.lb(silent=True, sparse_solver=bool(case['sparse']))
         judge(Kd, KGd, p.eigvals, p.eigvecs, act, fails, dict(ctx, api='Panel.lb'), exact=exact, ordered=True, num=case['num'])
-        kk = min(len(vals), len(p.eigvals), case['num'])
-        if np.abs(np.real(vals[:kk]) - np.real(p.eigvals[:kk])).max() > 1e-6 * np.abs(vals[:kk]).max():
+        kk = min(len(vals), len(p.eigvals), case['num'], int((exact > 0).sum()))     # only finite positive multipliers are compared
+        if kk and np.abs(np.real(vals[:kk]) - np.real(p.eigvals[:kk])).max() > 1e-6 * np.abs(vals[:kk]).max():
             fails.append(fail('Panel.lb and compmech.analysis.lb disagree on the same matrices', sig=None, case=case))
     except Exception as e:
         fails.append(fail('buckling analysis raised', sig=None, case=case, error=repr(e)[:300]))
